@@ -267,7 +267,7 @@ func (pc *pCtx) p3Lazy(sites []*pSite, only string) {
 							continue // own local
 						}
 						// (two pipelines built from one operator value then deliver each other's values: also a matter of C04)
-						pc.add(append(append([]string{}, props...), "C04"), fmt.Sprintf("P3/%s/apply/writes:%s", name, cellName(al)),
+						pc.add(append(append([]string{}, props...), "C04", "C05"), fmt.Sprintf("P3/%s/apply/writes:%s", name, cellName(al)),
 							"applying an operator value to a source does not mutate state captured by the operator value (two applications are independent)", hot,
 							fmt.Sprintf("the closure %s writes captured variable %s", funcKey(fn), cellName(al)), pc.pos(ins.Pos()))
 					}
